@@ -292,9 +292,74 @@ static void l6_shard(long shard, void *arg) {
     }
 }
 
+/* ---------- huge: lengths at which an 8-, 16-, 31- or 32-bit counter wraps ----------
+ * Every part-length limit (local part 64, label 63, domain 253) is checked again at lengths k*2^8+d, k*2^16+d (and 2^24+d, 2^31+d, 2^32+d in
+ * the thorough tier), d = 0..70 and 250..258: a length kept in a narrower type than size_t passes the limit there and nowhere else.
+ * The strings are views into one buffer of 'a's (copy-on-write after fork), so a 4 GiB case costs two dirty pages.
+ * Expected verdict by construction: reject with a negative code, in every mode, with and without TLD check, direct call and object API.
+ *   kind 0  'a'*L @ok.com           kind 1  x@ 'a'*L .com          kind 2  x@ ('a'*63 .)* to L characters .com
+ *   kind 3  x@ (a.)*(L/2) com       kind 4  "'a'*(L-2)" @ok.com */
+#include <sys/mman.h>
+static unsigned char *HB; static size_t HBCAP; static int C_HUGE;
+static size_t HUGE_L[4096]; static int HUGE_N;
+static void huge_lengths(void) {
+    static const size_t D6[] = { 0, 1, 2, 63, 64, 65 };
+    HUGE_N = 0;
+    for (int k = 1; k <= 8; k++) for (size_t d = 0; d <= 258; d++) { if (d > 70 && d < 250) continue; HUGE_L[HUGE_N++] = (size_t)k * 256 + d; }
+    static const int K16[] = { 1, 2, 3, 4, 16 };
+    for (int i = 0; i < 5; i++) for (size_t d = 0; d <= 258; d++) { if (d > 70 && d < 250) continue; HUGE_L[HUGE_N++] = (size_t)K16[i] * 65536 + d; }
+    if (mc_thorough) { static const size_t B[] = { (size_t)1 << 24, (size_t)1 << 31, (size_t)1 << 32 };
+        for (int i = 0; i < 3; i++) for (int j = 0; j < 6; j++) HUGE_L[HUGE_N++] = B[i] + D6[j]; }
+}
+static void huge_init(void) {
+    huge_lengths();
+    size_t maxl = 0; for (int i = 0; i < HUGE_N; i++) if (HUGE_L[i] > maxl) maxl = HUGE_L[i];
+    HBCAP = maxl + 8192;
+    HB = mmap(NULL, HBCAP, PROT_READ | PROT_WRITE, MAP_PRIVATE | MAP_ANONYMOUS | MAP_NORESERVE, -1, 0);
+    if (HB == MAP_FAILED) { perror("mmap"); exit(2); }
+    memset(HB, 'a', HBCAP);
+}
+static void huge_case(int kind, size_t L) {
+    if (L + 64 > HBCAP) return;
+    if (kind >= 2 && kind <= 3 && L > ((size_t)1 << 22)) return;       /* pattern kinds write the whole string: up to 4 MiB */
+    unsigned char *b = HB + 4096; size_t n = 0, dirty = 0;
+    const unsigned char *dom = NULL; size_t domn = 0;
+    switch (kind) {
+    case 0: memcpy(b + L, "@ok.com", 8); n = L + 7; break;
+    case 1: b -= 2; memcpy(b, "x@", 2); memcpy(b + 2 + L, ".com", 5); n = L + 6; dom = b + 2; domn = L + 4; break;
+    case 2: b -= 2; memcpy(b, "x@", 2); for (size_t i = 63; i < L; i += 64) b[2 + i] = '.'; if (b[2 + L - 1] == '.') b[2 + L - 1] = 'a'; memcpy(b + 2 + L, ".com", 5); n = L + 6; dirty = L; dom = b + 2; domn = L + 4; break;
+    case 3: b -= 2; memcpy(b, "x@", 2); for (size_t i = 1; i < L; i += 2) b[2 + i] = '.'; L &= ~(size_t)1; memcpy(b + 2 + L, "com", 4); n = L + 5; dirty = L; dom = b + 2; domn = L + 3; break;
+    case 4: b[0] = '"'; b[L - 1] = '"'; memcpy(b + L, "@ok.com", 8); n = L + 7; break;
+    }
+    char cfg[96];
+    for (int m = 0; m < 4; m++) for (int tld = 0; tld < 2; tld++) {
+        snprintf(cfg, sizeof cfg, "huge=1 kind=%d len=%zu mode=%s tld=%d", kind, L, MN[m], tld);
+        mc_current("huge", cfg, (const unsigned char *)"", 0);
+        eav_result_t *r = EMAIL[m]((const char *)b, n, tld); int rc = r->rc; eav_result_free(r);
+        int ret = eav_is_email(&OBJ[m][tld], (const char *)b, n), err = OBJ[m][tld].errcode;
+        MC_ADD(C_EVAL, 2); MC_ADD(C_HUGE, 1);
+        if (rc >= 0 || ret != 0 || err == EEAV_NO_ERROR) {
+            char w[96]; snprintf(w, sizeof w, "huge:kind-%d:%s:oversized-part-accepted", kind, MN[m]);
+            mc_violation("huge", w, "", cfg, (const unsigned char *)"", 0, "kind %d with a part of %zu characters: is_%s_email rc=%d, eav_is_email ret=%d errcode=%d (a part over its limit must be rejected)", kind, L, MN[m], rc, ret, err);
+        }
+    }
+    if (dom) {
+        int drc = is_ascii_domain((const char *)dom, (const char *)dom + domn); MC_ADD(C_EVAL, 1);
+        snprintf(cfg, sizeof cfg, "huge=1 kind=%d len=%zu", kind, L);
+        if (drc >= 0) mc_violation("huge", "huge:is_ascii_domain:oversized-accepted", "", cfg, (const unsigned char *)"", 0, "kind %d, %zu characters: is_ascii_domain returned %d", kind, domn, drc);
+    }
+    /* put the 'a's back */
+    memset(HB + 4096 - 2, 'a', 2 + 16); memset(HB + 4096 + L - 2, 'a', 32); if (dirty) memset(HB + 4096 - 2, 'a', dirty + 16);
+}
+static void huge_shard(long shard, void *arg) { (void)arg; for (int kind = 0; kind < 5; kind++) huge_case(kind, HUGE_L[shard]); }
+
 static int do_replay(void) {
     mc_replay_t r; if (mc_load_replay(mc_replay, &r)) return 2;
-    mc_replay_hit = 0; check_email(r.sub, r.in, (size_t)r.len);
+    mc_replay_hit = 0;
+    if (mc_cfg_int(r.cfg, "huge", 0)) { mc_thorough = 1; huge_lengths(); size_t L = (size_t)strtoull(strstr(r.cfg, "len=") + 4, NULL, 10); HBCAP = L + 8192;
+        HB = mmap(NULL, HBCAP, PROT_READ | PROT_WRITE, MAP_PRIVATE | MAP_ANONYMOUS | MAP_NORESERVE, -1, 0); if (HB == MAP_FAILED) return 2; memset(HB, 'a', HBCAP);
+        huge_case((int)mc_cfg_int(r.cfg, "kind", 0), L); }
+    else check_email(r.sub, r.in, (size_t)r.len);
     printf("replay %s: %s\n", mc_replay, mc_replay_hit ? "VIOLATION reproduced" : "no violation");
     return mc_replay_hit ? 1 : 0;
 }
@@ -303,7 +368,7 @@ int main(int argc, char **argv) {
     mc_init(argc, argv, "C01");
     C_L1 = mc_counter("L1_strings"); C_L2 = mc_counter("L2_strings"); C_L3 = mc_counter("L3_strings");
     C_ACC = mc_counter("ref_accept"); C_REJ = mc_counter("ref_reject"); C_ANY = mc_counter("ref_any"); C_IMPLACC = mc_counter("impl_accept_tld_off");
-    C_COMPVALID = mc_counter("composition_all_parts_valid"); C_IDN = mc_counter("harness_idn2_conversions");
+    C_COMPVALID = mc_counter("composition_all_parts_valid"); C_HUGE = mc_counter("huge_length_calls"); C_IDN = mc_counter("harness_idn2_conversions");
     setup_objects();
     if (mc_replay) return do_replay();
     mc_parallel("L2: 19 templates x 255 bytes (+ byte pairs)", NTPL, l2_shard, NULL);
@@ -313,10 +378,14 @@ int main(int argc, char **argv) {
     memset(&L4E, 0, sizeof L4E); L4E.A = SIGLIT; L4E.nA = 7; L4E.N = mc_thorough ? 8 : 7; L4E.k = 2; L4E.fn = l4_cb;
     mc_parallel("L4: all bracket contents over {1 0 a : . IPv6: 25}", mc_enum_shards(&L4E), l4_shard, NULL);
     mc_parallel("L4: dotted quads over 7 octet spellings ^4, plain and as IPv6 tail", 1, l4_quads, NULL);
+    huge_init();
+    { char nmh[160]; snprintf(nmh, sizeof nmh, "huge: 5 oversized-part shapes at %d lengths k*2^8+d, k*2^16+d%s (d = 0..70, 250..258): every limit where a narrow counter wraps", HUGE_N, mc_thorough ? ", 2^24+d, 2^31+d, 2^32+d" : "");
+      mc_parallel(nmh, HUGE_N, huge_shard, NULL); }
+    munmap(HB, HBCAP);
     mc_parallel("L6: 8 local-part shapes around every byte 0x01-0xFF x 24 domain shapes", 255, l6_shard, NULL);
     if (corpus_load()) return 2;
-    { static const int PH[] = { CP_LONGIDN, CP_ALTDOT, CP_LABELLEN, CP_MAXLIT };
-      for (unsigned i = 0; i < 4; i++) { L5PH = PH[i]; char nm5[80]; snprintf(nm5, sizeof nm5, "L5: %.60s", corpus_name(L5PH)); mc_parallel(nm5, corpus_shards(L5PH), l5_shard, NULL); } }
+    { static const int PH[] = { CP_LONGIDN, CP_ALTDOT, CP_LABELLEN, CP_MAXLIT, CP_LPXDOM, CP_WHOLEDOM };
+      for (unsigned i = 0; i < sizeof PH / sizeof PH[0]; i++) { L5PH = PH[i]; char nm5[80]; snprintf(nm5, sizeof nm5, "L5: %.60s", corpus_name(L5PH)); mc_parallel(nm5, corpus_shards(L5PH), l5_shard, NULL); } }
     int N = mc_thorough ? 8 : 6;
     memset(&L1E, 0, sizeof L1E); L1E.A = SIGC; L1E.nA = NSIGC; L1E.N = N; L1E.k = 3; L1E.fn = l1_cb;
     char nm[96]; snprintf(nm, sizeof nm, "L1: all strings of <= %d tokens over {a . @ [ ] \" \\ SP 1 : - U+0416}", N);
